@@ -87,7 +87,8 @@ impl Vm {
   fn to_call_result(&self, execute_result: ExecutionResult) -> Call {
     match execute_result {
       ExecutionResult::Ok(value) => Call::Ok(value),
-      ExecutionResult::Exit(_) => self.internal_error("Accidental early exit in hook call"),
+      // hand the exit to the native so it reaches the interpreter loop that called it
+      ExecutionResult::Exit(code) => Call::Err(LyError::Exit(code)),
       ExecutionResult::CompileError => {
         self.internal_error("Compiler error should occur before code is executed.")
       },
